@@ -166,7 +166,7 @@ theorem importBin_nodeSection {E : Type} (g : Guards) (A : Alg E) (term : E) (nv
   simp only [hT]
   have hcap : ¬ ((d.nodes.length + 1) * 4 > isizeMax) := by
     have := hw.1; omega
-  simp only [hcap, ↓reduceIte]
+  simp only [hcap]
   -- the terminal record
   match hterms : d.terms with
   | [] => simp [hterms] at hd
